@@ -50,6 +50,10 @@ Proof. exact wrong_type_inert. Qed.
 Theorem C02_oracle_sound : forall s, reachable s -> check_C02 (alive_idle s) (log s) = true.
 Proof. exact check_C02_sound. Qed.
 
+(* the same oracle without its (cubic) real-time-order clause, used on long-backlog logs *)
+Theorem C02_oracle_lite_sound : forall s, reachable s -> check_C02_lite (alive_idle s) (log s) = true.
+Proof. exact check_C02_lite_sound. Qed.
+
 (* ---- statement pins ---- *)
 Check (C02_refines_fifo : forall s, reachable s ->
   handled s = firstn (length (handled s)) (accepted s) /\ NoDup (accepted s) /\ NoDup (handled s)).
@@ -90,3 +94,4 @@ Print Assumptions C02_exactly_once_if_alive.
 Print Assumptions C02_real_time_order.
 Print Assumptions C02_wrong_type_inert.
 Print Assumptions C02_oracle_sound.
+Print Assumptions C02_oracle_lite_sound.
